@@ -1422,6 +1422,8 @@ func (r *qpRun) runStreamOps(p qpStreamPlan) {
 			}
 			if s := r.appStream(st); s != nil {
 				st.closeReadHigh = st.high
+				st.appClosedRead = true
+				r.noteAppClosed(st) // a peer-initiated unidirectional stream may now be dropped by the conn
 				s.CloseRead()
 				r.drain()
 				r.flushLog(fmt.Sprintf("app: CloseRead stream %d at received offset %d", st.id, st.high))
@@ -1448,10 +1450,11 @@ func (r *qpRun) readOp(st *qpStream, op qpOp) {
 	if st.closeReadHigh >= 0 || st.appClosedRead {
 		return // the application gave up reading
 	}
-	total := 0
+	total, calls := 0, 0
 	var lastErr error
 	for i := 0; i < 64; i++ {
 		got, err := r.appRead(st, op.n)
+		calls++
 		total += got
 		lastErr = err
 		if err != nil || op.mode != 0 || r.over() {
@@ -1462,7 +1465,7 @@ func (r *qpRun) readOp(st *qpStream, op qpOp) {
 	if lastErr != nil {
 		errs = lastErr.Error()
 	}
-	r.flushLog(fmt.Sprintf("app: read stream %d: %d bytes (pos %d), err=%s", st.id, total, st.readPos, errs))
+	r.flushLog(fmt.Sprintf("app: read stream %d with a %d-byte buffer: %d bytes in %d calls (pos %d), last err=%s", st.id, op.n, total, calls, st.readPos, errs))
 	if total > 0 {
 		vs.G.Inc("probe.app_read_bytes")
 	}
